@@ -24,6 +24,46 @@ CHECKS = [
                "reference lexer fixes the reading of the informal property (unterminated lexeme yields no comment, "
                "Python module docstrings are comments, chunk adjacency is by start line)."),
          technique=T_CORR),
+    dict(id='C01',
+         text='Coq theorems (Planted.v): for every hash function, context and threshold <= 1 a verbatim copy of a corpus document passes the prefilter, produces exactly the main-diagonal range, survives density window, fusion and cut with exact bounds, scores 1.0 with zero offsets, is in the candidate list with exact token span/lines/names, and is reported when the other candidates are line-isolated from it (shown necessary). Tied to the code by the whole-pipeline model stream and a direct planted-copy oracle on Match over all embedded documents and synthetic corpora.',
+         note='go-diff enters through contract D2 only (diff of equal sequences is one Equal), validated on every recorded script; byte-level compositionality of planting (context ends at a line boundary) is exercised by the oracle, not proved; |K| < 2^53.',
+         technique=T_CORR),
+    dict(id='C02',
+         text='Coq theorems (ScoringProof.v, Float64Proof.v): for ANY valid edit script the reported confidence is fl(1 - fl(D/|K|)) with D >= word Levenshtein distance between the document and the span trimmed by exactly the reported offsets, D = 0 only if identical; float64 monotonicity and conf = 1.0 <=> D = 0 via Flocq. Model stream validates every go-diff script; independent O(nm) Levenshtein oracle on Match results.',
+         note='diff library = oracle with validated contract (valid script, no empty entries); float lemmas rest on the stdlib real-number axioms (listed in evidence); dictionary words non-empty and space-free (proved for the tokenizer in TokInv.v).',
+         technique=T_CORR),
+    dict(id='C03',
+         text='Coq theorems (MatchWF.v, TokInv.v, SortProof.v, Float64Proof.v): every reported match is well formed (threshold <= conf, names from a corpus key, token indices in range, lines = lines of first/last token, lines ordered and <= TotalInputLines <= 1 + newlines), results are a subsequence of the Less-sorted candidates, conf <= 1. Direct field-by-field oracle on Match results.',
+         note="composition of the per-layer theorems into one statement is by inspection of Props/C03.v; threshold-0 corner (TotalInputLines 0 with a Copyright match) is outside C03's quantifier.",
+         technique=T_CORR),
+    dict(id='C04',
+         text="Coq theorems (MatchND.v, SortProof.v): with the repaired total comparator the model's result is the same for every order of the corpus documents and every correct sorting algorithm; the original comparator is refuted end to end (identical documents). Oracle: repeated/permuted/superset/interleaved/traced/cross-process runs must be bit-identical.",
+         note="map iteration and sort.Sort are modelled as 'any order' / 'any sorted permutation'; purity of the input slice and the go-diff deadline are runtime facts checked only by the harness; dictionary growth effect on scoreDiffs is a known finding.",
+         technique=T_CORR),
+    dict(id='C05',
+         text='Coq theorems (TokSim.v, TokWF.v): for every table satisfying the executable predicate tables_wf (evaluated on the tables dumped from the running code) re-casing, whitespace runs, trailing blanks/CRLF, indentation, line decoration, typographic dashes/quotes leave the tokenisation unchanged, blank lines shift line numbers exactly; side conditions = the hyphen exemption. Tokenizer model stream + metamorphic Match oracle over the full corpus.',
+         note='Match depends on the input only through the tokenisation (by construction of the model, validated by the match stream); html.UnescapeString is an oracle.',
+         technique=T_CORR),
+    dict(id='C06',
+         text='Coq theorems (TokSim.v, TokWF.v): notice lines at clean boundaries add exactly one Copyright pseudo match and shift lines; header-like markers contribute no token (exact characterisation of which words are markers, incl. the a) finding); interchangeable spellings and https/http clean to the same token. Metamorphic Match oracle incl. the reporting of inserted notices.',
+         note='hyphen splitting is covered by the oracle only; overlap-filter treatment of pseudo matches is a known finding.',
+         technique=T_CORR),
+    dict(id='C07',
+         text='Model stream (whole-pipeline model vs Match on planted/edited inputs) and metamorphic oracle Match(X) vs Match(P+X+S); the exact-copy case is covered by the C01 theorems (range bounds independent of A, B). No general shift theorem is claimed: partial.',
+         note='partial: the fuzzy path (density window start, negative-offset clamp, short-target trim) is position dependent by construction; only searched, not proved.',
+         technique=T_CORR),
+    dict(id='C10',
+         text='Coq theorems: match_tokens never reaches an out-of-range site for any threshold/corpus/input given a valid diff oracle (MatchWF.v + ScoringProof.v offsets), searchset ranges in bounds, read loop total on every byte string (ReaderProof.v), all recursion structural or on fuel proved sufficient. Oracle: hostile bytes x corpora x thresholds with recover and time budget.',
+         note='termination/performance of the Go code itself (two superquadratic behaviours are known findings), html/regexp/unicode totality are runtime facts exercised by the oracle.',
+         technique=T_CORR),
+    dict(id='C11',
+         text='Normalize model (Normalize.v) tied to the code byte-for-byte; oracle: tokens(Normalize(x)) = tokens(x) and Match(Normalize(x)) = Match(x) minus Copyright on license-bearing inputs. No general theorem yet (four known findings show the unrestricted statement is false): partial.',
+         note='partial: theorem for the restricted statement not yet proved; known findings classified by narrow symptom predicates.',
+         technique=T_CORR),
+    dict(id='C08',
+         text='Coq theorems (ReaderProof.v): for every byte string, table and mode the chunked read loop (1024-byte buffer, 1020 target, <= 4 carried bytes) yields exactly the whole-string tokenisation, hence independence of fragmentation and padding; a reader fault at any offset <= len yields the error; UTF-8 decode/encode round trip; the original loop is refuted by a 1025-byte witness. Reader model stream + MatchFrom-vs-Match oracle under adversarial readers.',
+         note='io.ReadFull semantics abstracted (byte stream + failure offset), validated by the adversarial readers; Match depends on input only through tokenisation.',
+         technique=T_CORR),
 ]
 _PENDING = "check under construction in this round (model/proof not yet committed); not claimed until it is"
-NOT_APPLICABLE = [dict(property_id='C%02d' % i, reason=_PENDING) for i in range(1, 20) if i != 18]
+NOT_APPLICABLE = [dict(property_id='C%02d' % i, reason=_PENDING) for i in range(1, 20) if i not in (1,2,3,4,5,6,7,8,10,11,18)]
